@@ -42,11 +42,16 @@ func hdrLen(flags, nsub int) int {
 
 // boundaryList builds the list for target T with the given patterns for the
 // lookups to convert; order permutes the positions in the list.
-func boundaryList(T int, conv []mfsPattern, fillerFlags []int, order int) ([]llLookup, bool) {
+func boundaryList(T int, conv []mfsPattern, fillerFlags []int, order int, marker bool) ([]llLookup, bool) {
 	c, m := len(conv), len(fillerFlags)
-	n := c + m + 2
+	n := c + m + 1
+	if marker {
+		n++
+	}
 	pos := 2 + 2*n // header
-	pos += 8 + 12  // marker lookup: header + Gsub1_1
+	if marker {
+		pos += 8 + 12 // marker lookup: header + Gsub1_1
+	}
 	for _, p := range conv {
 		pos += hdrLen(p.flags, 1) + 8
 	}
@@ -67,7 +72,9 @@ func boundaryList(T int, conv []mfsPattern, fillerFlags []int, order int) ([]llL
 		ll = append(ll, llLookup{tp: 2, flags: p.flags, mfs: p.mfs, subs: []llSub{{kind: "b", size: 14000 + 20*i, seed: 50 + i}}})
 	}
 	ll = append(ll, llLookup{tp: 3, subs: []llSub{{kind: "b", size: 16000, seed: 99}}})
-	ll = append(ll, llLookup{tp: 1, subs: []llSub{markerSub("gsub")}})
+	if marker {
+		ll = append(ll, llLookup{tp: 1, subs: []llSub{markerSub("gsub")}})
+	}
 	// rotate the list: the layout algorithm sorts by size, not by position
 	k := order % len(ll)
 	ll = append(ll[k:], ll[:k]...)
@@ -90,7 +97,7 @@ func genBoundary(run *vlib.Run, r *vlib.Rand, tier string, add func(ll []llLooku
 			if (ci+T/2)%3 == 0 {
 				ff[0], ff[2] = 0x10, 0x10 // fillers with the flag: they are not converted for T <= 0xFFFF
 			}
-			ll, ok := boundaryList(T, conv, ff, ci+T/2)
+			ll, ok := boundaryList(T, conv, ff, ci+T/2, true)
 			if !ok {
 				continue
 			}
@@ -102,4 +109,33 @@ func genBoundary(run *vlib.Run, r *vlib.Rand, tier string, add func(ll []llLooku
 		}
 	}
 	_ = r
+}
+
+// boundaryInfo: the same construction with real subtables (Gsub1_2 with n
+// consecutive glyphs: 6 + 2n + 10 bytes), through (*gtab.Info).Encode and
+// gtab.Read (oracle only).
+func boundaryInfo(T int, conv []mfsPattern) (infoDesc, bool) {
+	ll, ok := boundaryList(T, conv, []int{0, 0x10, 0, 0, 0}, T/2, false)
+	d := infoDesc{table: "gsub"}
+	if !ok {
+		return d, false
+	}
+	for _, l := range ll {
+		sz := l.subs[0].size
+		if sz%2 != 0 || sz < 40 {
+			return d, false
+		}
+		n := (sz - 16) / 2
+		nums := make([]int, n)
+		for i := range nums {
+			nums[i] = (i*3 + l.subs[0].seed) & 0xffff
+		}
+		st := stDesc{kind: "gsub12", cov: make([]pair, n), nums: nums}
+		for i := range st.cov {
+			st.cov[i] = pair{i, i}
+		}
+		d.lookups = append(d.lookups, lookupDesc{tp: 1, flags: l.flags, mfs: l.mfs, subs: []vlib.Sx{st.sx()}})
+	}
+	d.features = []featDesc{{tag: "liga", lookups: []int{0}}}
+	return d, true
 }
